@@ -67,7 +67,9 @@ Section IO.
 
   Definition item_to_json (cast_types : bool) (v : pyval) : res pyval :=
     match v with
-    | VType t => if cast_types then Ok (match assoc_ty t (sx_inv_dtype X) with Some n => VStr n | None => v end) else Ok v
+    | VType t =>   (* a type without a spec name, or where names are not read back, is refused *)
+        if cast_types then match assoc_ty t (sx_inv_dtype X) with Some n => Ok (VStr n) | None => Err TypeError end
+        else Err TypeError
     | VDict d => Ok (escape_map d)
     | VObj _ => Err OtherExc          (* an object inside a literal: not modelled *)
     | _ => Ok v
@@ -175,10 +177,18 @@ Section IO.
           | Some ll, Some ml =>
               if String.eqb (l_cls ll) "Index" && String.eqb (l_call ll) "equal_to"
                  && String.eqb (l_cls ml) "Key" && String.eqb (l_call ml) "equal_to"
-              then match kw_value ll, kw_value ml with
-                   | Some lv, Some mv =>
-                       if pytype_eqb (py_type lv) (py_type mv) && py_eq lv mv then Ok (Some lv) else Ok None
-                   | _, _ => Err KeyError
+              then match kw_value ll with
+                   | Some lv =>
+                       (* only an int (or bool) is read back as a map-or-list part by the DataPath constructor *)
+                       match lv with
+                       | VInt _ | VBool _ =>
+                           match kw_value ml with
+                           | Some mv => if pytype_eqb (py_type lv) (py_type mv) && py_eq lv mv then Ok (Some lv) else Ok None
+                           | None => Err KeyError
+                           end
+                       | _ => Ok None
+                       end
+                   | None => Err KeyError
                    end
               else Ok None
           | _, _ => Ok None
@@ -207,7 +217,7 @@ Section IO.
     end.
 
   (* DataPath.to_part_specs(): simplify() is evaluated for all parts first *)
-  Definition path_to_part_specs (p : dpath pyval) : res pyval :=
+  Definition path_part_specs_core (p : dpath pyval) : res pyval :=
     let* simples := mapM simple_of (p_parts p) in
     let* specs := mapM (fun ps => match snd ps with
                                   | Some v => Ok v
@@ -221,6 +231,16 @@ Section IO.
       end
     else Ok (VList specs).
 
+  (* DataPath._to_part_specs(): source data cannot be written in specs *)
+  Definition path_part_specs_inner (p : dpath pyval) : res pyval :=
+    match p_src p with Some _ => Err ValueError | None => path_part_specs_core p end.
+  (* DataPath.to_part_specs() / to_json_like(): nor can part specs carry the datum type / multiplicity *)
+  Definition path_to_part_specs (p : dpath pyval) : res pyval :=
+    match p_dt p, p_mt p with
+    | DtNone, MtNone => path_part_specs_inner p
+    | _, _ => Err ValueError
+    end.
+
   Definition mt_name (m : multi_type) : option string :=
     match m with MtNone => None | MtFirst => Some "first" | MtLast => Some "last" | MtSingle => Some "single"
                | MtAll => Some "all" | MtAny => Some "any" end.
@@ -232,7 +252,7 @@ Section IO.
   Definition path_to_spec (p : dpath pyval) : res pyval :=
     let key := str_join "." ("path" :: (match mt_name (p_mt p) with Some m => [m] | None => [] end)
                                     ++ (match dt_name (p_dt p) with Some d => [d] | None => [] end)) in
-    let* parts := path_to_part_specs p in
+    let* parts := path_part_specs_inner p in
     Ok (VDict [(VStr key, parts)]).
 
   (* arguments of rule conditions: literals and data paths *)
